@@ -134,10 +134,19 @@ static Task *choose(Task **elig, int n, bool forced)
 	return c;
 }
 
+static std::function<bool()> g_watch; static Task *g_watcher = nullptr; static bool g_watch_hit = false;
+static Task *watch_fire()
+{
+	if (!g_watcher || (g_watcher->st != IDLEWAIT && g_watcher->st != SLEEP) || !g_watch || !g_watch()) return nullptr;
+	Task *w = g_watcher; g_watcher = nullptr; g_watch_hit = true; w->st = RUN; w->wake_at = -1;
+	return w;
+}
+
 static Task *pick()
 {
 	for (;;)
 	{
+		if (g_watcher) if (Task *w = watch_fire()) return w;
 		Task *elig[512]; int n = 0; bool stalled = false;
 		for (auto *t : g_tasks)
 			if (t->st == RUN || (t->st == POLL && t->poll_epoch != g_epoch))
@@ -192,6 +201,7 @@ static void block() { Task *n = pick(); switch_to(n); }
 void yield_point(int)
 {
 	if (!active()) return;
+	if (g_watcher && t_self != g_watcher) if (Task *w = watch_fire()) { switch_to(w); return; }
 	double p = g_cfg.p_preempt;
 	if (g_cfg.policy == POL_RUNTOBLOCK) p *= 0.05;
 	if (g_cfg.policy == POL_PCT)
@@ -250,6 +260,16 @@ void settle()
 	Task *me = t_self; me->st = IDLEWAIT; block();
 }
 
+bool settle_watch(const std::function<bool()>& pred, int64_t max_ns)
+{
+	if (pred()) return true;
+	Task *me = t_self; g_watch = pred; g_watch_hit = false; g_watcher = me;
+	if (max_ns > 0) { me->st = SLEEP; me->wake_at = g_now + max_ns; progress(); } else me->st = IDLEWAIT;
+	block();
+	g_watcher = nullptr; g_watch = nullptr;
+	return g_watch_hit;
+}
+
 bool settle_until(const std::function<bool()>& pred, int64_t max_ns, int64_t step_ns)
 {
 	int64_t deadline = g_now + max_ns;
@@ -269,6 +289,7 @@ void begin(const Config& cfg)
 	g_cfg = cfg; g_rng = Rng(cfg.sched_seed); g_now = cfg.start_ns; g_epoch = 1; g_steps = 0; g_preempt = 0;
 	g_hash = 1469598103934665603ull; g_dhash = 1469598103934665603ull; g_trace.clear(); g_counters.clear(); g_idle_confirmed = false;
 	while (!g_events.empty()) g_events.pop();
+	g_watcher = nullptr; g_watch = nullptr; g_watch_hit = false;
 	g_pct_points.clear(); g_pct_low = -1;
 	if (cfg.policy == POL_PCT) for (int i = 0; i < cfg.pct_depth; ++i) g_pct_points.push_back(1 + g_rng.below(4000));
 	Task *t = new Task; t->id = 0; hs_init(&t->sem); t->real = pthread_self(); t->prio = (int64_t)(g_rng.next() >> 2);
